@@ -26,7 +26,8 @@ EXHAUSTIVE_PART = "every stream on 2 columns x 3 rows (quick) / 2 x 4 rows and 3
 ASSUMPTIONS = ["vmon/ref/grouping.py classifies orphans as documented"]
 MONITORS = ["roundtrip", "inside_hold"]
 REQUIRED = ["keysounded_head_joined", "dropped_orphans", "note_inside_hold", "corpus_chart",
-            "tail_same_beat_between_row_notes", "by_type_two_heads_one_orphan", "note_inside_hold_in_a_multi_note_row"]
+            "tail_same_beat_between_row_notes", "by_type_two_heads_one_orphan", "note_inside_hold_in_a_multi_note_row",
+            "joined_hold_nested_in_a_joined_hold_on_its_column"]
 
 
 def anchors():
@@ -57,6 +58,9 @@ def cases(ctx):
     if ctx.shard == 0:
         for name, ch in c07.corpus_charts():
             yield {"kind": "corpus", "name": name}
+    for _ in range(ctx.split(8 if quick else 16 * 40)):
+        columns, notes = G.gen_chain(rng, malformed=rng.choice([0.0, 0.0, 0.01]))
+        yield {"kind": "random", "notes": notes, "include": None, "chain": True}
     n = ctx.split(1500 if quick else 16 * 40000)
     for i in range(n):
         if i % 5 == 4:
@@ -90,8 +94,12 @@ def gen_inside(rng):
             else:
                 items.append([b, c, "N", rng.choice("1M2L"), None, rng.choice([None, 3])])
         elif holds[c] > b:
-            # strictly inside the joined hold on this column
-            items.append([b, c, "N", rng.choice("1M24L"), None, None])
+            # strictly inside the joined hold on this column: a plain note, or a second joined hold nested in the first
+            if rng.random() < 0.3 and holds[c] - b >= 2:
+                tb = b + rng.randint(1, holds[c] - b - 1)
+                items.append([b, c, "T", rng.choice("24"), tb, None])
+            else:
+                items.append([b, c, "N", rng.choice("1M24L"), None, None])
     items.sort(key=lambda it: (it[0], it[1]))
     shape = rng.choice(["separate", "by_beat", "by_beat"])
     return {"kind": "inside", "items": items, "shape": shape}
@@ -230,7 +238,7 @@ def inside(ctx, case):
                 grouped.append([o])
     # model: walk items in order; pending tails (beat, col); a plain/head note whose column has a pending tail
     # strictly after its position is "inside".
-    def expect(policy):
+    def expect(policy, dropped_tails=True):
         out = []
         pending = []
         for b, c, kind, t, tb, ks in items:
@@ -244,7 +252,7 @@ def inside(ctx, case):
                 if policy == R.RAISE:
                     return ("raise", me)
                 if policy == R.DROP:
-                    if kind == "T":
+                    if kind == "T" and dropped_tails:
                         pending.append((tb, c))
                     continue
             out.append(me)
@@ -261,9 +269,15 @@ def inside(ctx, case):
         if pol == R.RAISE and want[0] == "raise":
             any_inside = True
         # a dropped NoteWithTail inside another hold: whether its tail is still emitted is not specified; skip those
-        if pol == R.DROP and _drop_ambiguous(items):
-            ctx.skip("DROP of a head lying inside a hold: its tail is unspecified")
+        also = None
+        if pol == R.DROP and _drop_ambiguous(items) == "beyond":
+            ctx.skip("DROP of a head lying inside a hold and ending after it: what its tail covers is unspecified")
             continue
+        if pol == R.DROP and _drop_ambiguous(items):
+            # a dropped joined hold nested in another one: whether its own tail is still emitted is not specified
+            # (both answers accepted); every other note is still kept or dropped by the enclosing hold
+            also = expect(pol, dropped_tails=False)
+            ctx.feat("joined_hold_nested_in_a_joined_hold_on_its_column")
         ctx.mon("inside_hold")
         try:
             got = ("ok", [c09.note_tuple(n) for n in ungroup_notes(iter(grouped), orphaned_notes=OP[pol])])
@@ -273,7 +287,7 @@ def inside(ctx, case):
             got = ("raise", c09.note_tuple(a) if hasattr(a, "beat") else (want[1] if want[0] == "raise" else repr(a)))
         except Exception as e:
             got = ("error", repr(e))
-        if got != want:
+        if got != want and got != also:
             ctx.violation(f"inside-hold:policy{pol}:{want[0]}-vs-{got[0]}",
                           {"policy": pol, "want": repr(want)[:500], "got": repr(got)[:500]})
     if any_inside:
@@ -283,10 +297,15 @@ def inside(ctx, case):
 
 
 def _drop_ambiguous(items):
+    """False | "nested" (a joined hold strictly inside another on its column) | "beyond" (starting inside, ending after)."""
     pending = {}
+    res = False
     for b, c, kind, t, tb, ks in items:
         if c in pending and pending[c] > b and kind == "T":
-            return True
+            if tb >= pending[c]:
+                return "beyond"
+            res = "nested"
+            continue
         if kind == "T":
             pending[c] = tb
-    return False
+    return res
